@@ -7,8 +7,8 @@ The observed event trace is replayed through the transition systems of `P2/Model
   comp2                          : `CS`, `guard = true` iff every `process` delay of stage 2 is 0
   comp3                          : no transition system (depth-2 model only): accounting
                                    `expected inputs lost` with `lost` = the cancelled hand-overs of the trace
-Answer: the items yielded by the last stream in order; `bad-trace` if an observed event is not enabled
-(or names another item than the model's).
+Answer: the items yielded by the last stream in order (` !undrained` appended if the trace ends while the model
+still holds items: a stall); `bad-trace` if an observed event is not enabled (or names another item than the model's).
 -/
 open P2 P2.ProcStream P2.Drv
 
@@ -120,18 +120,21 @@ def handle (line : String) : String :=
         let p2zero := match kvs.find? (fun kv => kv.1 = "p2") with
           | some (_, l) => l.all (· == 0)
           | none => true
-        if kind = "single" ∨ kind = "bag" ∨ kind = "chain2" ∨ kind = "chain3" then
+        if kind = "single" ∨ kind = "bag" ∨ kind = "hold" ∨ kind = "chain2" ∨ kind = "chain3" then
           let nl := if kind = "chain2" then 2 else if kind = "chain3" then 3 else 1
           let layers0 : List SL := (List.range nl).map (fun k => initS (if k = 0 then inputs else []))
           match evs.foldlM stepChain layers0 with
           | some layers =>
             match layers.getLast? with
-            | some s => fmtList s.yielded
+            | some s =>
+              -- the run is over: a layer that still holds items has stalled (c13_single_layer_complete)
+              let undrained := layers.any (fun l => seqS l != l.yielded)
+              fmtList s.yielded ++ (if undrained then " !undrained" else "")
             | none => "bad-op"
           | none => "bad-trace"
         else if kind = "comp2" then
           match evs.foldlM (stepComp p2zero) { s := initC inputs, cancelSeen := none } with
-          | some d => fmtList d.s.yielded
+          | some d => fmtList d.s.yielded ++ (if seqC d.s != d.s.yielded then " !undrained" else "")
           | none => "bad-trace"
         else if kind = "comp3" then
           let lost := evs.filterMap (fun t => match splitEv t with
